@@ -382,20 +382,22 @@ pub fn canonicity_variants(
             deliver("unshared-duplicate", assemble(&v2, None), witness, r, out);
         }
     }
-    // (d) repeated hidden node
+    // (d) repeated hidden node: give the last assertion that uses a shared hidden node its own
+    // copy, placed where the canonical order of the unshared DAG wants it (right before the
+    // parent when the hidden node is the right child), so that only the hidden-node rule is broken
     let hidden: Vec<usize> = (0..n).filter(|i| matches!(nodes[*i], ANode::Hidden(_))).collect();
-    if let Some(&i) = hidden.first() {
+    for &i in hidden.iter().take(2) {
         if refs[i] >= 2 {
-            let v = insert_at(&nodes, i + 1, nodes[i].clone());
-            if let Some(p) = (0..v.len()).rev().find(|p| v[*p].children().contains(&i)) {
+            let parent = (0..n).rev().find(|p| matches!(nodes[*p], ANode::Case(_, h) if h == i));
+            if let Some(p) = parent {
+                let v = insert_at(&nodes, p, nodes[i].clone());
                 let mut v2 = v.clone();
-                v2[p] = v[p].map_children(&|c| if c == i { i + 1 } else { c });
-                deliver("repeated-hidden-node", assemble(&v2, None), witness, r, out);
+                // the parent moved to p + 1; its right child becomes the copy at p
+                if let ANode::Case(l, _) = v[p + 1] {
+                    v2[p + 1] = ANode::Case(l, p);
+                    deliver("repeated-hidden-node", assemble(&v2, None), witness, r, out);
+                }
             }
-        } else {
-            // a second, unused copy of the hidden node
-            let v = insert_at(&nodes, i + 1, nodes[i].clone());
-            deliver("repeated-hidden-node", assemble(&v, None), witness, r, out);
         }
     }
     // (e) word of size 2^32 (header only; the decoder must refuse at the bound)
